@@ -145,6 +145,13 @@ func runV4(tr *vh.Trace, sc int, ops []op, ihl int) {
 					src, dst = []byte{10, 0, 0, 99}, []byte{10, 0, 0, byte(o.key - 1)}
 				}
 			}
+			cfgIhl := ihl
+			if cfgIhl == 65 { // the first fragment carries options that are not copied into the others
+				ihl = 5
+				if o.lo == 0 {
+					ihl = 6
+				}
+			}
 			in := &layers.IPv4{Version: 4, IHL: uint8(ihl), TOS: 3, Length: uint16(ihl*4 + n), Id: id, TTL: 61,
 				Protocol: layers.IPProtocolUDP, SrcIP: src, DstIP: dst,
 				FragOffset: uint16(o.lo / 8)}
@@ -183,6 +190,7 @@ func runV4(tr *vh.Trace, sc int, ops []op, ihl int) {
 				ev["ihl"] = int(out.IHL)
 			}
 			tr.Emit(ev)
+			ihl = cfgIhl
 		case "discard":
 			n := d.DiscardOlderThan(ts(o.t))
 			tr.Emit(vh.M{"op": "discard", "sc": sc, "t": o.t, "n": n})
@@ -336,7 +344,7 @@ func main() {
 				vh.Fatal("bad scenario", err)
 			}
 			sc++
-			runV4(tr, sc, ops, 5+n%2)
+			runV4(tr, sc, ops, []int{5, 6, 65}[n%3]) // 65: options in the offset-0 fragment only (not copied into the others)
 		}
 	}
 	r := vh.NewRand(*seed)
